@@ -135,10 +135,12 @@ impl HybridTimestamp {
 
     pub fn increment(self) -> Self {
         let timestamp = Timestamp::now();
-        if timestamp == self.0 {
-            Self(timestamp, self.1.increment())
-        } else {
+        if timestamp > self.0 {
             Self(timestamp, LamportTimestamp::default())
+        } else {
+            // The wall clock did not advance (or even went backwards): keep our physical time and
+            // move the logical clock forwards, so the result is always strictly greater.
+            Self(self.0, self.1.increment())
         }
     }
 
